@@ -173,6 +173,8 @@ def gen_circuit_spec(rng, cfg):
                 ok.append(k)
         if not ok:
             ok = ["ket"] if len(wires) < max_w else ["scalar"]
+        # preparations in the middle of a circuit and swaps are what moves registers around
+        ok += [x for x in ok if x in ("ket", "swapq", "swapq")] + (["swapq"] if "swapq" in ok else [])
         k = rng.choice(ok)
         if k == "ket":
             n = rng.randint(1, min(2, max_w - len(wires)))
